@@ -13,6 +13,9 @@ def boot():
     if _booted:
         return
     sys.setrecursionlimit(20000)
+    import decimal
+    global CTX0
+    CTX0 = decimal.getcontext().copy()
     if REPO not in sys.path:
         sys.path.insert(0, REPO)
     from . import seams
@@ -35,6 +38,7 @@ def boot():
 
 
 SNAP_A = SNAP_B = None
+CTX0 = None
 TWIN_MODULES = {}
 TWIN = None             # namespace of the twin universe: .SqParser, .PRISTINE
 
@@ -67,13 +71,40 @@ def _load_twin():
     TWIN.modules = TWIN_MODULES
     TWIN.PRISTINE = sq.SqParser()
     TWIN.ParserError = TWIN_MODULES['smartquery.exceptions'].ParserError
+    from . import monitors
+    # the twin's builtin table gets the same (inert) wrappers as the monitored universe, so that texts which
+    # mention the type of a builtin ("'function' object has no attribute ...") agree in both universes
+    table = TWIN_MODULES['smartquery.functions'].FUNCTIONS
+    for name in list(table):
+        f = table[name]
+        monitors.M.fn_names.setdefault(id(f), 'builtin:' + name)
+        w = monitors._wrap_builtin(name, f)
+        table[name] = w
+        monitors.M.fn_names[id(w)] = 'builtin:' + name
 
 
 def reset_run_state():
     """Called before every run (and replay): no process-global state of the package survives from earlier runs."""
+    import decimal
     from . import modstate
     modstate.reset(SNAP_A)
     modstate.reset(SNAP_B)
+    decimal.setcontext(CTX0.copy())       # the thread's decimal context is process-global state too
+
+
+class pristine_context:
+    """Run a twin-universe call under the decimal context a fresh process has, then give the long-lived
+    universe its (possibly modified) context back."""
+
+    def __enter__(self):
+        import decimal
+        self.saved = decimal.getcontext()
+        decimal.setcontext(CTX0.copy())
+
+    def __exit__(self, *exc):
+        import decimal
+        decimal.setcontext(self.saved)
+        return False
 
 
 def twin_parser(cache=None):
